@@ -7,10 +7,10 @@ package main
 
 import (
 	"encoding/json"
-	"math/big"
 	"flag"
 	"fmt"
 	"go/ast"
+	"math/big"
 	"os"
 	"regexp"
 	"runtime/debug"
